@@ -95,6 +95,22 @@ func c16Shapes() []*c16Case {
 		s2 := gram.Parse(n, []string{"TA", "TB"}, n+": "+n+" TA | TB")
 		add("nonterminal-name-unicode-"+n, s2)
 	}
+	// long names made of multi-byte letters, at every byte alignment (whatever is cut, padded or wrapped by
+	// bytes rather than by characters leaves broken UTF-8 in the file): two-byte (Cyrillic), three-byte (CJK)
+	// and four-byte (Gothic) letters behind 0 to 3 ASCII letters
+	for _, body := range []string{"числочислочислочисло", "識別子識別子識別子識別子", "𐌰𐌱𐌲𐌳𐌴𐌵𐌶𐌷"} {
+		for pre := 0; pre < 4; pre++ {
+			n := "Tabc"[:pre] + body
+			if pre == 0 {
+				n = body
+			}
+			s := gram.Parse("S", []string{n}, "S: S "+n+" | "+n)
+			add("token-name-long-unicode-"+n, s)
+			nt := "n" + n
+			s2 := gram.Parse(nt, []string{"TA", "TB"}, nt+": "+nt+" TA | TB")
+			add("nonterminal-name-long-unicode-"+nt, s2)
+		}
+	}
 	// character literals that are white space or beyond ASCII
 	for _, ch := range []string{" ", "\t", "\n", "é", "€", "\u00a0"} {
 		lit := "'" + ch + "'"
